@@ -93,6 +93,8 @@ def gen_dataset_params(rng, fmt: str | None = None, small: bool = False, big: bo
         'coord_seed': rng.getrandbits(32),
         'npt': fmt == 'vasp' and rng.chance(0.5),
     }
+    if fmt == 'lammps' and rng.chance(0.25):
+        d['lammps_style'] = 'charge'  # data file written in another atom style: loads need atom_style='charge'
     if fmt == 'vasp':
         d['potim'] = rng.pick([1.0, 2.0, 0.5])
         d['tebeg'] = rng.pick([300.0, 600.0, 900.0])
@@ -190,13 +192,13 @@ def write_vasprun(path, lattices, species, frac, potim=2.0, tebeg=600.0):
         f.write(''.join(out))
 
 
-def write_lammps(dirpath, L0, species, frac):
+def write_lammps(dirpath, L0, species, frac, style='atomic'):
     from pymatgen.core import Lattice, Structure
     from pymatgen.io.lammps.data import LammpsData
 
     s = Structure(Lattice(L0), species, frac[0])
-    LammpsData.from_structure(s, atom_style='atomic').write_file(os.path.join(dirpath, 'data.txt'))
-    L = LammpsData.from_file(os.path.join(dirpath, 'data.txt'), atom_style='atomic').structure.lattice
+    LammpsData.from_structure(s, atom_style=style).write_file(os.path.join(dirpath, 'data.txt'))
+    L = LammpsData.from_file(os.path.join(dirpath, 'data.txt'), atom_style=style).structure.lattice
     lines = []
     na = len(species)
     for i in range(len(frac)):
@@ -208,11 +210,11 @@ def write_lammps(dirpath, L0, species, frac):
         f.write(''.join(lines))
     # a second data file for the same coordinates (another cell): same coords_file, different data_file
     s2 = Structure(Lattice(np.asarray(L0) * 1.25), species, frac[0])
-    LammpsData.from_structure(s2, atom_style='atomic').write_file(os.path.join(dirpath, 'data2.txt'))
+    LammpsData.from_structure(s2, atom_style=style).write_file(os.path.join(dirpath, 'data2.txt'))
     # ... and one with the *same file name* in another directory
     os.makedirs(os.path.join(dirpath, 'alt'), exist_ok=True)
     s3 = Structure(Lattice(np.asarray(L0) * 1.5), species, frac[0])
-    LammpsData.from_structure(s3, atom_style='atomic').write_file(os.path.join(dirpath, 'alt', 'data.txt'))
+    LammpsData.from_structure(s3, atom_style=style).write_file(os.path.join(dirpath, 'alt', 'data.txt'))
 
 
 def write_gromacs(dirpath, box, species, frac, dt=2.0):
@@ -264,7 +266,7 @@ def write_dataset(d: dict, dirpath: str):
         write_vasprun(os.path.join(dirpath, 'vasprun.xml'), lats, d['species'], frac, d['potim'], d['tebeg'])
         return ['vasprun.xml']
     if d['fmt'] == 'lammps':
-        write_lammps(dirpath, lats[0], d['species'], frac)
+        write_lammps(dirpath, lats[0], d['species'], frac, d.get('lammps_style', 'atomic'))
         return ['data.txt', 'data2.txt', 'coords.xyz']
     if d['fmt'] == 'gromacs':
         write_gromacs(dirpath, d['lattice']['params'][:3], d['species'], frac, d['dt'])
@@ -355,12 +357,15 @@ TYPE_MAPS = {
 }
 
 
-def loader_call(fmt: str, dirpath: str, argset: dict, cache):
+def loader_call(fmt: str, dirpath: str, argset: dict, cache, dataset: dict | None = None):
     """Return (callable_name, kwargs) for gemdat.Trajectory loader with relative paths."""
     a = dict(argset)
     if fmt == 'lammps':
         if a.get('type_mapping') is not None:
             a['type_mapping'] = dict(TYPE_MAPS[a['type_mapping']])
+        if dataset and dataset.get('lammps_style') == 'charge':
+            # for a data file in 'charge' style the roles swap: omitted -> the style the file needs, 'charge' spelled out -> 'atomic' (fails)
+            a['atom_style'] = {None: 'charge', 'atomic': 'charge', 'charge': 'atomic'}[a.get('atom_style')]
         kw = dict(coords_file=os.path.join(dirpath, 'coords.xyz'), data_file=os.path.join(dirpath, a.pop('_data', 'data.txt')), **a)
         name = 'from_lammps'
     elif fmt == 'vasp':
